@@ -8,6 +8,8 @@
 //     Snapshot.Load / FindReaders+Get / merged iteration over all files of the version; 4 of 10 cases
 //     are histories of flushes, level-0 compactions and reopens (levels_test.go): lookups over
 //     versions with files above level 0 (TestStoreLevels runs only those).
+//   - TestReaderOrderClasses / TestSharedReaderGoroutines (shared_test.go)   one cached reader used
+//     by several users: generated step orders interleaved on one goroutine, and 2-8 real goroutines.
 //   - FuzzTableReader      native fuzz target (thorough tier): a valid table must read back exactly;
 //     mutated / arbitrary files are informational only (the property says nothing about corrupt files).
 package c15
